@@ -301,6 +301,7 @@ def run(ctx):
     purge_preview_probe(ctx)
     purge_fails_probe(ctx)
     custom_label_probe(ctx)
+    other_database_probe(ctx)
     # ---- fixed witness of the Lean counterexample C08_cex_mark_then_install ---------------------
     evorig.fresh_databases()
     evorig.clear_evolutions()
@@ -419,6 +420,55 @@ def custom_label_probe(ctx):
     ctx.case({'history': steps}, nontrivial=True, sample_cap=1)
     for p_ in problems:
         ctx.fail(None, 'app with a custom label: ' + p_, {'history': steps})
+    evorig.install_models({'apps': []})
+    evorig.clear_evolutions()
+
+
+def other_database_probe(ctx):
+    """the same history on a second database (Evolver(database_name='other')) while the default database stays at
+    the first release: what is recorded THERE decides what is applied there"""
+    from django.db import models
+    from django_evolution.models import Evolution
+    from django_evolution.mutations import AddField
+
+    def fld(name, t, **attrs):
+        return {'name': name, 'type': t, 'attrs': attrs, 'related': None}
+
+    def spec(n):
+        return {'apps': [{'id': 'vapp', 'models': [{
+            'name': 'Thing', 'table': 'vapp_thing', 'unique_together': [], 'index_together': [], 'indexes': [],
+            'constraints': [], 'fields': [fld('id', 'AutoField', primary_key=True)] +
+            [fld('f%d' % i, 'IntegerField', null=True) for i in range(n)]}]}]}
+    evos = lambda n: [{'label': 'o_e%d' % i, 'mutations': [AddField('Thing', 'f%d' % i, models.IntegerField, null=True)]}
+                      for i in range(1, n)]
+    evorig.fresh_databases()
+    evorig.clear_evolutions()
+    evorig.install_models(spec(1))
+    evorig.run_evolver()                        # the default database is installed once and then left alone
+    rows = lambda: sorted(Evolution.objects.using('other').filter(app_label='vapp').values_list('label', flat=True))
+    steps, problems = [], []
+    for n, what in ((1, 'install'), (3, 'release 2'), (3, 'no-op'), (4, 'release 3'), (4, 'no-op')):
+        evorig.install_models(spec(n))
+        evorig.set_evolutions('vapp', evos(n))
+        tr = evorig.Trace('other')
+        r = evorig.run_evolver(alias='other', trace=tr)
+        applied = [x for nm, info in tr.signals() if nm == 'applying_evolution' and info.get('app') == 'vapp'
+                   for x in info.get('evolutions', [])]
+        steps.append('%s on other: %s, executed %s, recorded %s' % (what, r[0], applied, rows()))
+        want = ['o_e%d' % i for i in range(1, n)]
+        if r[0] != 'ok':
+            problems.append('%s on the second database fails: %s' % (what, str(r[1])[:120]))
+            break
+        if rows() != want:
+            problems.append('after %s the evolutions recorded on the second database are %s, expected %s' % (what, rows(), want))
+            break
+        if what == 'no-op' and applied:
+            problems.append('a further run on the second database executed %s again' % applied)
+            break
+    ctx.count('other_database_probe')
+    ctx.case({'history': steps}, nontrivial=True, sample_cap=1)
+    for p_ in problems:
+        ctx.fail(None, p_, {'history': steps})
     evorig.install_models({'apps': []})
     evorig.clear_evolutions()
 
